@@ -322,6 +322,15 @@ def currently_exiting_context(frame: types.FrameType) -> Optional[ExitingContext
             while code[offs] == op["CACHE"] and offs >= 2:
                 offs -= 2
             is_async = True
+        if not is_async and code[offs] == op["CACHE"]:
+            # A frame that is *running* inside the awaited __aexit__ has
+            # lasti pointing at the inline cache entry that follows SEND
+            # (3.12+), not at SEND itself
+            send_offs = offs
+            while code[send_offs] == op["CACHE"] and send_offs >= 2:
+                send_offs -= 2
+            if code[send_offs] == op["SEND"]:
+                offs = send_offs
         if code[offs] == op["SEND"]:
             offs -= 2
             is_async = True
